@@ -188,6 +188,12 @@ class C14(HttpProp):
                 ops += [f"fault {idx}:before", rq]
             ops += [rq]
             out.append(Case(f"c14-fault-{j}", ops, {"only": "sqlite", "faults": True, "big": True}, mode="http"))
+        # a slow disk: one storage call of the request takes eleven seconds, then succeeds — the response encodes the outcome
+        # the library produced, however long it took
+        ops = ["http POST av hyph=nil hyph=1 history b:1", "http POST av hyph=latest:1 hyph=1 history b:2", "slowcall 2 11000", "http POST av hyph=latest:1 hyph=1 history b:3",
+               "http GET gcv hyph=anc:1:1 hyph=1 absent e", "slowcall 0 11000", "http POST as hyph=latest:1 hyph=1 snapshot b:9", "http GET snap - hyph=1 absent e",
+               "http POST av hyph=latest:1 hyph=1 history b:4"]
+        out.append(Case("c14-slowdisk", ops, {"big": True}, mode="http"))
         for j, nb in enumerate(sizes_b):
             kch = [1, 3, 2][j % 3]
             ops = ["http POST av hyph=nil hyph=1 history b:1", f"http POST av hyph=latest:1 hyph=1 history big:{nb}:{kch}",
@@ -459,6 +465,11 @@ class C15(HttpProp):
                 ops += ["dumpall", f"http@0 POST av hyph=latest:{c} hyph={c} history b:5,{c}", "dumpall", f"http@0 GET gcv hyph=anc:{c}:1 hyph={c} absent e"]
             ops += ["kill"]
             out.append(Case(f"c15-bin-{k}", ops, {"only": "sqlite", "bin": True}, mode="bin"))
+        # well below the limit but above the sizes at which frameworks set their own defaults (256 KiB, 1 MiB, 2 MiB, 8 MiB)
+        for j, nb in enumerate([262144, 262145, 1048577, 2097153, 8388609]):
+            ops = ["http POST av hyph=nil hyph=1 history b:1", "dumpall", f"http POST av hyph=latest:1 hyph=1 history big:{nb}:{1 + j % 3}", "dumpall",
+                   f"http POST as hyph=latest:1 hyph=1 snapshot big:{nb}:{1 + (j + 1) % 3}", "dumpall", "http GET snap - hyph=1 absent e"]
+            out.append(Case(f"c15-mid-{j}", ops, {"big": nb}, mode="http"))
         # the size limit: limit-1, limit (accepted), limit+1 (refused), one chunk and several
         big = []
         sizesb = [MAX, MAX + 1] if tier != "thorough" else [MAX - 1, MAX, MAX + 1]
@@ -519,8 +530,8 @@ class C15(HttpProp):
                 if rb and ra and rb[-1] != ra[0] and not rb[-1].startswith("rows na"):
                     fails.append(f"op {i} `{o}`: refused with {r.status} but the raw rows changed")
             else:
-                if r.status == 400:
-                    fails.append(f"op {i} `{o}`: a well-formed request with a body within the limit was refused 400")
+                if r.status not in (200, 403, 404, 409, 410) and not (case.meta.get("faults") and r.status == 500):
+                    fails.append(f"op {i} `{o}`: a well-formed request with a body within the limit was refused {r.status} (protocol outcomes are 200, 404, 409, 410; 403 for an unlisted client)")
         return fails
     def _blk(self, trace, i, d):
         return dump_block(trace, i, d)
@@ -984,6 +995,11 @@ class C06(HttpProp):
                         f"http POST av hyph=latest:1 hyph=1 history r:{100 + j}", "http GET gcv hyph=anc:1:1 hyph=1 absent e"]
                 if rng.random() < 0.5:
                     ops += ["fault 3:before", f"http POST as hyph=latest:1 hyph=1 snapshot b:67,{j}", "http GET snap - hyph=1 absent e"]
+                else:
+                    # a snapshot is in place; its replacement fails at the write / at the commit: id AND bytes of the old one stay
+                    ops += [f"http POST as hyph=latest:1 hyph=1 snapshot r:{300 + j}", "http GET snap - hyph=1 absent e", f"http POST av hyph=latest:1 hyph=1 history b:5,{j}",
+                            f"fault {rng.choice(['3:before', '2:after', '2:before'])}", f"http POST as hyph=latest:1 hyph=1 snapshot r:{500 + j}", "http GET snap - hyph=1 absent e",
+                            "reopen", "http GET snap - hyph=1 absent e"]
             ops += ["walk 1"]
             out.append(Case(f"c06-commitfault-{k}", ops, {"only": "sqlite", "faults": True}, mode="http"))
         if tier == "thorough":
